@@ -26,7 +26,9 @@ class World:
     def __init__(self, rnd):
         self.rnd = rnd
         self.ev = []
-        self.net_up = True
+        self.net_up = True           # the aggregator is reachable
+        self.conn_ok = True          # the websocket of the current connection is alive: lost when the net goes down, and
+        #                              only a new connect_async brings one back (a send cannot succeed on a dead socket)
         self.pending = 0
         self.count = 0
         self.loop = None
@@ -82,6 +84,7 @@ def _dispatcher(world):
             await asyncio.sleep(world.rnd.choice([0, 0.01, 0.2]))
             if not world.net_up:
                 raise ProtocolNetworkException("scripted: aggregator unreachable")
+            world.conn_ok = True
             self._engine_id = "engine-1"
 
         async def disconnect_async(self):
@@ -92,11 +95,11 @@ def _dispatcher(world):
             self.assign_sequence_number(message)
             # the request goes onto the websocket when send is called (arrival order = call order); what takes time, and
             # what a connection loss interrupts, is the wait for the response
-            arrived = world.net_up
+            arrived = world.net_up and world.conn_ok
             if arrived:
                 world.log(e="wire", n=message.n, seq=message.sequence_number)
             await asyncio.sleep(world.rnd.choice([0, 0, 0.005, 0.02, 0.15]))
-            if not world.net_up or not arrived:
+            if not world.net_up or not world.conn_ok or not arrived:
                 world.log(e="attempt", n=message.n, seq=message.sequence_number, ok=False)
                 raise ProtocolNetworkException("scripted: connection closed")
             world.log(e="attempt", n=message.n, seq=message.sequence_number, ok=True)
@@ -131,6 +134,7 @@ async def _scenario(loop, world, script, quiet, react=None):
             await asyncio.sleep(delay)
         if act == "down":
             world.net_up = False
+            world.conn_ok = False
         elif act == "up":
             world.net_up = True
         elif act == "data":
